@@ -22,13 +22,18 @@ MODULES = ["Curtsies.Properties.C08"]
 RULE = ("scripts = agenda (<= 9 timed environment actions: byte arrivals incl. bursts up to 3 KB aligned to READ_SIZE / "
         "paste_threshold / MAX_KEYPRESS_SIZE boundaries made of ASCII, 2-4 byte UTF-8 characters and escape sequences from "
         "the live key tables, possibly cut inside a character; unget_bytes; event_trigger / scheduled_event_trigger (equal and "
-        "past times included) / the two halves of threadsafe callbacks; SIGINT; other signals; spurious readiness) + main script "
+        "past times included) / the three steps of threadsafe callbacks (run to os.write, write lands, return); SIGINT; other signals; spurious readiness) + main script "
         "(<= 12 requests with timeout None/0/small and clock advances), paste_threshold in {None,0,1,8,default}, with and "
         "without a wake-up fd; fixed boundary enumeration + corpus (D14, D15, D16 histories) + seeded random. "
         "non-trivial = distinct scripts in which at least one request returned something or raised")
 ASSUMPTIONS = [
     "PARTIAL BY NATURE: list.append/pop(0)/extend are atomic under the GIL - the model and the simulation preempt the main "
     "thread only inside select (environment actions fire there or between requests), never inside a bytecode",
+    "a thread-safe callback is the one place where the simulation preempts INSIDE a callback: the real callback runs in a helper "
+    "thread parked before and after its (fake) os.write, stepped by the agenda items tsA/tsB/tsC, so 'appended, not yet written' and "
+    "(for a callback that writes first) 'written, not yet appended' are both schedulable; hand-off is strict, one thread runs at a time",
+    "a completed thread-safe callback must interrupt: a request may not return None / block with its event pending; events of "
+    "event_trigger / scheduled_event_trigger fired DURING a blocked request are only required at the next request (their docstrings)",
     "signal delivery is modelled as: wake-up byte written and Python-level handler run at the same instant, at an agenda time",
     "select reports ready descriptors in the order of its input list and is otherwise fair; the clock only advances inside "
     "select or between requests (the main thread's own statements take no time); clock readings are integer ticks",
@@ -43,7 +48,8 @@ LEVEL_NOTE = ("PARTIAL: proof over a discrete-event model of Input in which thre
               "requests (GIL atomicity of list operations, signal timing and select fairness are assumptions, named in the evidence); "
               "D15 (bytes lost when the available bytes end inside a multi-byte keypress) is an open known finding: the byte-ledger "
               "theorem carries the complementary hypothesis. trusted: Lean kernel + propext/Classical.choice/Quot.sound, the "
-              "hand-written model, the scripted environment of the simulation, extract.py, the wire codec")
+              "hand-written model, the scripted environment of the simulation, extract.py, the wire codec; not proved: the wait-loop fuel "
+              "of the model always suffices (C08_wait_fuel_statement), byte clause of the multi-request ledger with unget_bytes between requests")
 TRUSTED = ["the scripted environment (harness/props/c08.py class Env) implements the same select/agenda semantics as "
            "Model/Input.lean `select`/`applyEnv` - it is the specification of the outside world, written twice"]
 
